@@ -60,7 +60,7 @@ func genPubfan(rt *rapid.T) pfProg {
 		p.Shape = append(p.Shape, pfShape{
 			Topic:  rapid.IntRange(0, 2).Draw(rt, "st"),
 			Target: rapid.IntRange(0, p.Sc.NUsers-1).Draw(rt, "su"),
-			Kind:   rapid.SampledFrom([]string{"given", "given", "want", "want", "unsub", "leave", "ban"}).Draw(rt, "sk"),
+			Kind:   rapid.SampledFrom([]string{"given", "given", "want", "want", "unsub", "leave", "ban", "reinvite"}).Draw(rt, "sk"),
 			Mode:   rapid.SampledFrom(pfModes).Draw(rt, "sm"),
 		})
 	}
@@ -504,6 +504,28 @@ func runPubfan(t *testing.T, sched simrt.Schedule, prog pfProg) ([]Violation, Ru
 				ops[oc.Idx] = append(ops[oc.Idx], opSetSub(fmt.Sprintf("@grp%d", ti), fmt.Sprintf("@usr%d", sh.Target), mode))
 			case "want":
 				ops[tc.Idx] = append(ops[tc.Idx], opSetSub(name, "", sh.Mode))
+			case "reinvite":
+				// the target unsubscribes, another subscriber (owner / p2p peer) invites the user back, the user attaches again
+				var inviter *SimClient
+				if ti < len(sc.Groups) {
+					inviter = w.clientsOf(sc.Groups[ti].Owner)[0]
+				} else if p := sc.P2P[ti-len(sc.Groups)]; p[0] == sh.Target {
+					inviter = w.clientsOf(p[1])[0]
+				} else if p[1] == sh.Target {
+					inviter = w.clientsOf(p[0])[0]
+				}
+				if inviter == nil || inviter.User.Idx == sh.Target {
+					continue
+				}
+				w.runPhase(map[int][]*Op{tc.Idx: {opLeave(name, true)}})
+				im := ""
+				if ti >= len(sc.Groups) {
+					im = "JRWPA" // the p2p default grant is JA: the user would not see any message
+				}
+				w.setOps(map[int][]*Op{inviter.Idx: {opSetSub(c01TopicName(sc, inviter, ti), fmt.Sprintf("@usr%d", sh.Target), im)}})
+				w.rt.Run(2*time.Second, nil)
+				ops[tc.Idx] = append(ops[tc.Idx], opSub(name, "", ""))
+				simrt.Probe("c02.reinvite")
 			case "unsub":
 				ops[tc.Idx] = append(ops[tc.Idx], opLeave(name, true))
 			case "leave":
